@@ -204,6 +204,8 @@ pub fn access(ctx: &mut Ctx) {
         Tree::L(vec![]),
         Tree::I(7),
         Tree::L(vec![Tree::L(vec![Tree::L(vec![Tree::B(false)])]), Tree::B(true), Tree::IV(vec![1, 2]), Tree::F(f32::NAN)]),
+        // literals of other kinds ahead of the values: an INDEX, vectors, a name, an instruction
+        Tree::L(vec![Tree::Idx(1, 2), Tree::IV(vec![9]), Tree::I(21), Tree::Idx(0, 0), Tree::BV(vec![true]), Tree::B(false), Tree::FV(vec![1.5]), Tree::F(2.5), Tree::ins("NOOP"), Tree::I(22), Tree::B(true), Tree::F(3.5)]),
         // one top-level element, many values inside; deep nesting
         Tree::L(vec![Tree::L(vec![Tree::I(10), Tree::I(20), Tree::I(30), Tree::I(40), Tree::F(1.5), Tree::F(2.5), Tree::F(3.5), Tree::B(true), Tree::B(false), Tree::B(true)])]),
         Tree::L(vec![Tree::L(vec![Tree::L(vec![Tree::L(vec![Tree::I(1), Tree::I(2), Tree::I(3), Tree::B(true), Tree::B(true), Tree::F(9.5), Tree::F(8.5), Tree::F(7.5)])])])]),
